@@ -120,3 +120,12 @@ add("C16", "exploration", [
      "shards": {"quick": 4, "thorough": 8}, "checks": {"quick": 2000, "thorough": 60000},
      "timeout": {"quick": 600, "thorough": 3000}},
 ])
+
+add("C15", "fault_enumeration", [
+    {"name": "c15-stores", "bin": "exec", "pkg": "./exec", "run": "^TestVerifC15Stores$",
+     "shards": {"quick": 8, "thorough": 16}, "checks": {"quick": 40, "thorough": 1500},
+     "timeout": {"quick": 600, "thorough": 3000}},
+    {"name": "c15-retry", "bin": "exec", "pkg": "./exec", "run": "^TestVerifC15RetryReader$",
+     "shards": {"quick": 8, "thorough": 16}, "checks": {"quick": 200, "thorough": 5000},
+     "timeout": {"quick": 600, "thorough": 3000}},
+])
